@@ -339,17 +339,19 @@ def remove (s : State) (toi : Nat) : State × Bool :=
 
 def setComplete (s : State) : State := { s with complete := some true }
 
-/-- `TransferInfo::init` on the file with this TOI (`get_next_file_transfer`), then - in
-    ObjectsBeingTransferred mode - `publish(now)` -/
+/-- `TransferInfo::init` on the file with this TOI -/
+def fStart (t : Nat) (f : FileDesc) : FileDesc :=
+  if f.toi = t then
+    { f with transferring := true,
+             transferCount := if f.transferCount = f.attrs.maxTransferCount ∧ f.attrs.carousel then 0
+                              else f.transferCount }
+  else f
+
+/-- `get_next_file_transfer`: `transfer_started(now)` on the file, then - in ObjectsBeingTransferred mode -
+    `publish(now)` -/
 def tstart (s : State) (toi : Nat) (now : Nat) : State × List Pub :=
   if s.files.any (fun f => f.toi = toi) then
-    let files := s.files.map (fun f =>
-      if f.toi = toi then
-        { f with transferring := true,
-                 transferCount := if f.transferCount = f.attrs.maxTransferCount ∧ f.attrs.carousel then 0
-                                  else f.transferCount }
-      else f)
-    let s1 := { s with files := files }
+    let s1 := { s with files := s.files.map (fStart toi) }
     match s.cfg.mode with
     | .beingTransferred => let r := publish s1 now; (r.1, [r.2])
     | .fullFdt => (s1, [])
@@ -359,22 +361,29 @@ def tstart (s : State) (toi : Nat) (now : Nat) : State × List Pub :=
 def expiredAfter (f : FileDesc) : Bool :=
   if f.attrs.maxTransferCount > f.transferCount + 1 then false else !f.attrs.carousel
 
-/-- `Fdt::transfer_done` for an object: `TransferInfo::done`, then the file leaves `files` when expired -/
-def tdone (s : State) (toi : Nat) : State :=
-  let files := s.files.filterMap (fun f =>
-    if f.toi = toi then
-      if expiredAfter f then none
-      else some { f with transferring := false, transferCount := f.transferCount + 1 }
-    else some f)
-  { s with files := files }
+/-- `TransferInfo::done` on the file with this TOI; the file leaves `files` when it is expired then -/
+def fDone (t : Nat) (f : FileDesc) : Option FileDesc :=
+  if f.toi = t then
+    if expiredAfter f then none
+    else some { f with transferring := false, transferCount := f.transferCount + 1 }
+  else some f
+
+/-- `Fdt::transfer_done` for an object -/
+def tdone (s : State) (toi : Nat) : State := { s with files := s.files.filterMap (fDone toi) }
+
+/-- `if !fdt_transfer_queue.is_empty() { current_fdt_transfer = fdt_transfer_queue.pop_front() }` -/
+def popQueue (s : State) : State :=
+  match s.queue with
+  | [] => s
+  | p :: rest => { s with queue := rest, current := some p }
 
 /-- one call of `Fdt::get_next_fdt_transfer(now)` with the FDT session idle: republish when the current
     instance is about to expire, then take the next queued instance as the current one -/
 def poll (s : State) (now : Nat) : State × List Pub :=
-  let (s1, ps) := if needRepublish s now then (let r := publish s now; (r.1, [r.2])) else (s, [])
-  match s1.queue with
-  | [] => (s1, ps)
-  | p :: rest => ({ s1 with queue := rest, current := some p }, ps)
+  if needRepublish s now then
+    let r := publish s now
+    (popQueue r.1, [r.2])
+  else (popQueue s, [])
 
 inductive Op where
   | add (a : ObjAttrs)
